@@ -10,7 +10,7 @@ from . import c05
 ID = "C06"
 RULE = ("fault points enumerated, not sampled: every exception class (Exception subclasses, KeyboardInterrupt, SystemExit, GeneratorExit, CancelMutation) "
         "raised at every position of an edit script; an unserialisable property value / a chart without note data; an unencodable character for each "
-        "detected encoding; a failure injected at each semantic file-system step of the save (open-for-write, write, close of the backup and of the "
+        "detected encoding; an earlier attempt on the same file that did not save (unserialisable value, raising body, cancelled) followed by the retry; a failure injected at each semantic file-system step of the save (open-for-write, write, close of the backup and of the "
         "output) x backup/output configurations x {.sm,.ssc} x native and in-memory file systems; compares final directory contents and the "
         "escaping exception class; non-trivial = a fault or exception actually fired")
 assumptions = c05.assumptions + ["what a failed write leaves in the file being written is not claimed (the model leaves it empty); the comparison ignores "
@@ -20,6 +20,8 @@ _enum = None
 
 EXCS = ["RuntimeError", "KeyError", "KeyboardInterrupt", "SystemExit", "GeneratorExit", "CancelMutation"]
 BASE_OPS = [["attr", "title", "edited"], ["set", "CREDIT", "x"], ["dupchart"]]
+# earlier attempts on the same file that do not save: an unserialisable value met after other properties were written, a body that raises, a cancelled one
+PRE = [[["set", "CREDIT", "x"], ["badvalue", "GENRE"]], [["attr", "title", "t"], ["raise", "RuntimeError"]], [["dupchart"], ["badvalue", "ZZ"], ["raise", "CancelMutation"]]]
 UNENC = {"utf-8": "\udc80", "cp1252": "猫", "cp932": "한", "cp949": "\U0001f600"}
 
 
@@ -59,6 +61,12 @@ def enumeration():
                         out.append(dict(b, ops=[["badvalue", "GENRE"]]))
                         if fmt == "ssc":
                             out.append(dict(b, ops=[["dropnotes"]]))
+                        # a failed attempt first, then the retry on the same file (every fault point of the retry)
+                        for pre in PRE:
+                            out.append(dict(b, ops=BASE_OPS, before=pre))
+                            for which in (["bak", "out"] if backup == "ok" else ["out"]):
+                                for kind in ("open", "write", "close"):
+                                    out.append(dict(b, ops=BASE_OPS, fault=[kind, which], before=pre))
                 # unencodable character for each detected encoding
                 for codec in F.DEFAULT_ENCODINGS:
                     for output in (False, True):
@@ -85,6 +93,8 @@ def gen(rng, i, tier):
         c["ops"] = c["ops"][:pos] + [["raise", rng.choice(EXCS)]] + c["ops"][pos:]
     elif rng.random() < 0.2:
         c["ops"] = c["ops"] + [["badvalue", "GENRE"]]
+    if rng.random() < 0.3:
+        c["before"] = rng.choice(PRE)
     return c
 
 
@@ -109,6 +119,17 @@ def impl(c):
         entry = exitobs = None
         exc = None
         body_exc = None
+        pre = None
+        if c.get("before"):
+            # an earlier attempt on the same file, in the same process, that ends without saving
+            pre_exc = None
+            try:
+                kw0 = dict(kw, filesystem=F.FaultFS(sc.inner))
+                with simfile.mutate(sc.input, **kw0) as sf0:
+                    F.apply_ops(sf0, c["before"])
+            except BaseException as e:
+                pre_exc = type(e).__name__
+            pre = {"exc": pre_exc, "files": sc.snapshot()}
         try:
             with simfile.mutate(sc.input, output_filename=out, backup_filename=bak, **kw) as sf:
                 entry = G.sf_obs(sf)
@@ -124,6 +145,8 @@ def impl(c):
         except BaseException as e:
             exc = type(e).__name__
         res = {"exc": exc, "body_exc": body_exc, "files": sc.snapshot(), "entry": entry, "exit": exitobs, "fault_fired": fsys.hits}
+        if pre is not None:
+            res["pre"] = pre
         # whatever backup exists must parse to the entry simfile
         if bak and bak in res["files"] and not (c["fault"] and c["fault"][1] == "bak" and fsys.hits):
             enc = (c["try"] or F.DEFAULT_ENCODINGS)
@@ -223,6 +246,8 @@ def oracle(c, o):
     files = c05.canon_files(o["files"])
     inp, out, bak = c05.paths(c)
     before = {inp: c["data"]}
+    if "pre" in o and c05.canon_files(o["pre"]["files"]) != before:
+        return "an earlier attempt that did not save (%s) left the directory changed: %s" % (o["pre"]["exc"], sorted(c05.canon_files(o["pre"]["files"])))
     if c["backup"] in ("clash_input", "clash_output"):
         # a backup name equal to the input or output name: refused before anything is written, whatever else would have happened
         if o["exc"] != "ValueError":
@@ -248,9 +273,9 @@ def oracle(c, o):
         return "mutate raised %s (a file-system error) although no fault was injected on the file system it was given" % o["exc"]
     if o["exc"] == "OSError" and o.get("fault_fired") and bak and c["fault"] and c["fault"][1] == "out" and bak not in files:
         return "the output step failed, a backup had been requested, and no backup exists on the file system mutate was given"
-    if o["exc"] is not None and bak and bak in files and not (c["fault"] and c["fault"][1] == "bak"):
+    if bak and bak in files and not (c["fault"] and c["fault"][1] == "bak") and o["entry"] is not None:
         if o.get("bak_parses_to") != ["ok", o["entry"]]:
-            return "saving failed (%s) after the backup was written, but the backup does not parse to the original simfile" % o["exc"]
+            return "the backup was written (the call ended with %s), but it does not parse to the original simfile" % o["exc"]
     if o["exc"] == "OSError" and o.get("fault_fired") and bak is not None and out is None and c["fault"] and c["fault"][1] == "out" and c["fault"][0] in ("write", "close"):
         # the input is being overwritten when the fault hits: the original must survive in the backup
         if o.get("bak_parses_to") != ["ok", o["entry"]]:
@@ -264,9 +289,11 @@ def nontrivial(c, o):
 
 def describe(c):
     kind = "fault:" + "/".join(c["fault"]) if c.get("fault") else next(("raise:" + op[1] for op in c["ops"] if op[0] == "raise"), "unser" if unserialisable(c) else "other")
-    return "%s/%s/%s" % (c["fmt"], c["fs"], kind)
+    return "%s/%s/%s%s" % (c["fmt"], c["fs"], kind, "/retry" if c.get("before") else "")
 
 
 def shrink(c):
+    if c.get("before"):
+        yield {k: v for k, v in c.items() if k != "before"}
     for i in range(len(c["ops"])):
         yield dict(c, ops=c["ops"][:i] + c["ops"][i + 1:])
